@@ -270,11 +270,32 @@ def structure_flags(text):
         if re.search(r"descriptor\.path\s*==\s*NULL|!\s*descriptor\.path", body[:spos]):
             raise ExtractFail("wasi.c", f"{fname}: NULL-path test of an unexpected shape")
         return None
-    seek = re.search(r"WASI_PREVIEW1_IMPORT\s*\(\s*U32\s*,\s*fd_seek", text)
-    if not seek:
-        raise ExtractFail("wasi.c", "preview1 fd_seek not found")
-    sb = text[seek.start():seek.start() + 2500]
-    whence_first = 0 <= sb.find("convertPreview1Whence(whence)") < sb.find("wasiFDSeek(")
+    # where is an invalid whence (convert…Whence() == -1) rejected: in the fd_seek wrappers before
+    # wasiFDSeek is called (whence first), or inside wasiFDSeek after the descriptor checks
+    firsts = []
+    for macro in ("WASI_PREVIEW1_IMPORT", "WASI_UNSTABLE_IMPORT"):
+        seek = re.search(macro + r"\s*\(\s*U32\s*,\s*fd_seek", text)
+        if not seek:
+            raise ExtractFail("wasi.c", f"{macro} fd_seek not found")
+        end = match_close(text, text.index("(", seek.start()))
+        sb = text[seek.start():end]
+        call = sb.find("wasiFDSeek(")
+        test = re.search(r"if\s*\(\s*nativeWhence\s*==\s*-1\s*\)", sb)
+        if call < 0 or not re.search(r"nativeWhence\s*=\s*convert(Preview1|Unstable)Whence\s*\(\s*whence\s*\)", sb[:call]):
+            raise ExtractFail("wasi.c", "fd_seek wrapper of an unexpected shape")
+        firsts.append(test is not None and test.start() < call)
+    core = function_body(text, "wasiFDSeek")
+    ctest = re.search(r"if\s*\(\s*nativeWhence\s*==\s*-1\s*\)\s*\{[^}]*return\s+WASI_ERRNO_INVAL", core)
+    if firsts[0] != firsts[1]:
+        raise ExtractFail("wasi.c", "the two fd_seek wrappers treat an invalid whence differently")
+    whence_first = firsts[0]
+    if whence_first and ctest:
+        raise ExtractFail("wasi.c", "invalid whence tested twice")
+    if not whence_first:
+        fdneg = core.find("descriptor.fd < 0")
+        lseekpos = core.find("lseek(")
+        if not ctest or not (0 <= fdneg < ctest.start() < lseekpos):
+            raise ExtractFail("wasi.c", "wasiFDSeek: invalid-whence test missing or not between the descriptor checks and lseek")
     sync_inval = {}
     for fname in ("wasiFDDatasync", "wasiFDSync"):
         body = function_body(text, fname)
